@@ -25,7 +25,7 @@ RULE = ('cases = operation {C-GET, C-MOVE} x sub-operation count 0..6 x per-sub-
         'requests x message ids x context ids x in-memory / file-backed reception x schedule '
         '(uniform, provider stalls); non-trivial = >= 2 sub-operations or the empty retrieve; '
         'distinct = distinct scheduler signatures'
-        '; destination real / never answering the release / unknown to the application / refusing the connection; C-GET handler outcomes incl. EventHandlingError; zero-remaining progress; a second retrieve on the same association')
+        '; destination real / never answering the release / unknown to the application / refusing the connection; C-GET handler outcomes incl. EventHandlingError; zero-remaining progress; a second retrieve on the same association; C-GET provider window of 1-8 outstanding sub-operations')
 ASSUMPTIONS = ['"performed" = completed + failed + warning as reported (either the completed '
                'counter alone or the sum may equal k)',
                'all contexts of a C-GET association use one transfer syntax (documented '
@@ -49,7 +49,7 @@ def cases(tier, seed):
                    stall=rnd.random() < 0.2, maxlen=rnd.choice([64, 256, 16384]),
                    dest=rnd.choice(['real', 'real', 'real', 'never-answers-release', 'unknown',
                                     'refused']),
-                   dup_ctx=rnd.random() < 0.25,
+                   dup_ctx=rnd.random() < 0.25, window=rnd.choice([1, 1, 2, 3, 8]),
                    seed=seed * 100003 + i)
 
 
@@ -181,10 +181,16 @@ def _get(case):
                     state['rsps1'] = state['rsps']
                     state['rsps'] = []
                 state['get'] = m
-                next_store(peer)
+                # a provider may keep several sub-operations outstanding: it does not have to
+                # wait for one C-STORE response before it sends the next request
+                cur = subs1 if state.get('round', 1) == 1 else subs2
+                for _ in range(max(1, min(case.get('window', 1), len(cur)))):
+                    next_store(peer)
             elif f.get(0x0100) == 0x8001:
                 state['rsps'].append(m)
-                next_store(peer)
+                cur = subs1 if state.get('round', 1) == 1 else subs2
+                if state['i'] < len(cur) or len(state['rsps']) >= len(cur):
+                    next_store(peer)
         world.serve_peer(ADDR, lambda sock: peers.ScriptedAcceptor(world.sim, sock,
                                                                     on_message=on_message))
         handled = []
